@@ -346,8 +346,11 @@ func ParseField(v reflect.Value, bytes []byte, params fieldParameters) error {
 
 		sliceLen := len(valArray)
 		newSlice := reflect.MakeSlice(sliceType, sliceLen, sliceLen)
+		// the elements do not carry the tag of the list (the encoder clears it, too)
+		elemParams := params
+		elemParams.tagNumber = nil
 		for i := 0; i < sliceLen; i++ {
-			errParse := ParseField(newSlice.Index(i), valArray[i], params)
+			errParse := ParseField(newSlice.Index(i), valArray[i], elemParams)
 			if errParse != nil {
 				return errParse
 			}
